@@ -648,7 +648,10 @@ impl SearchIndex {
         // Vacuum to remove completely
         self.index.vacuum();
 
-        self.statistics.count.remove(*folder_id, doc_info);
+        // Only a document that existed changes the counts
+        if doc_info.is_some() {
+            self.statistics.count.remove(*folder_id, doc_info);
+        }
     }
 
     /// Remove all the documents for a given vault identifier from the index.
